@@ -37,7 +37,7 @@ var orderExtTypes = []string{"zeta", "mid", "alpha", "omega", "beta", "nu"}
 
 var orderWide = map[string]bool{
 	"MOSNConfig.Extends": true, "ListenerConfig.StreamFilters": true, "ListenerConfig.ListenerFilters": true,
-	"FilterChainConfig.Filters": true, "RouterConfigurationConfig.StaticVirtualHosts": true, "VirtualHost.Routers": true,
+	"FilterChainConfig.Filters": true, "RouterConfigurationConfig.StaticVirtualHosts": true, "RouterConfiguration.VirtualHosts": true, "VirtualHost.Routers": true,
 	"RouterMatch.Headers": true, "RouterMatch.Variables": true, "Cluster.Hosts": true,
 	"RouterConfigurationConfig.RequestHeadersToAdd": true, "RouterConfigurationConfig.ResponseHeadersToAdd": true,
 	"RouterConfigurationConfig.RequestHeadersToRemove": true, "RouterConfigurationConfig.ResponseHeadersToRemove": true,
